@@ -371,6 +371,10 @@ def evaluate(case):
     else:
         lo, hi, a, b, how = true_distance(P1, P2, L)
         tol11 = 5e-3 * L if fname == "line_to_circle" else told
+        # constructed gaps can equal the tolerance (gap 1e-6 with L = 1): the
+        # comparison must not be decided by the rounding of far coordinates
+        tol11 = tol11 * (1.0 + 1e-6) + 1e-12 * max(L, float(np.linalg.norm(P1.center())),
+                                                   float(np.linalg.norm(P2.center())))
         labels.append("truth:" + how)
         if d > hi + tol11:
             f11.append(fail("not-minimal/" + fname,
